@@ -56,7 +56,7 @@ RULE = (
     "tensors (other fill or extra padding), or is the reference evaluation of a cohort with a masked entry"
 )
 ASSUMPTIONS = [
-    "cohorts of 1-3 individuals with 1-3 visits and 1-2 features, at most 8 entries (every missing pattern of each shape)",
+    "cohorts of 1-3 individuals with 1-3 visits and 1-2 features (4 for the mixture model), at most 8 entries (every missing pattern of each shape)",
     "fill alphabet {0, 1, 7.5, -3e30, NaN, +inf, -inf, seed + 0.5}; the same number is written at every masked value and "
     "every padded age; ages of real visits are never altered (also when every feature of that visit is missing)",
     "extra padding in {0, 1, 2} visits appended after Dataset construction (n_visits_max adjusted, "
@@ -66,7 +66,7 @@ ASSUMPTIONS = [
     "(fixed cycle of normal / uniform answers); when only the padding length changes, sampler decisions are assumed not "
     "to sit within rounding distance of the scripted uniform draws",
     "a feature observed for no individual at all makes its noise estimate undefined (NaN): recorded, not judged",
-    "mixture model not covered; ordinal observation models do not exist in this version; LME and constant models "
+    "mixture model: graph evaluation only (thorough tier, 2 individuals x 1 visit x 4 features); ordinal observation models do not exist in this version; LME and constant models "
     "(which read the data through get_times_patient / get_values_patient / mask > 0 only) belong to C20",
     "single torch thread, float32, CPU, PYTHONHASHSEED=0",
 ]
@@ -80,7 +80,7 @@ EXTRAS = (0, 1, 2)
 # reduced alphabets for the expensive parts (fill, extra); the loader's tensors ("0", 0) are always the reference
 SLOW_VARIANTS = {
     "quick": [("nan", 0), ("0", 1), ("-3e30", 1)],
-    "thorough": [("nan", 0), ("7.5", 0), ("-3e30", 0), ("inf", 0), ("0", 2), ("nan", 2), ("-3e30", 1)],
+    "thorough": [("nan", 0), ("-3e30", 0), ("inf", 0), ("0", 2), ("7.5", 1)],
 }
 SCIPY_VARIANTS = {"quick": [("nan", 0), ("7.5", 2)], "thorough": [("nan", 0), ("-3e30", 0), ("0", 1), ("7.5", 2)]}
 
@@ -101,10 +101,10 @@ def fill_class(label: str) -> str:
 # ------------------------------------------------------------------------------------------------------------
 # cohorts
 
-PEOPLE = [
-    ([62.0, 66.5, 71.25], [[0.15, 0.10], [0.25, 0.20], [0.40, 0.34]]),
-    ([70.0, 72.0, 80.0], [[0.40, 0.30], [0.47, 0.50], [0.60, 0.72]]),
-    ([75.0, 78.5, 83.0], [[0.55, 0.65], [0.62, 0.70], [0.81, 0.77]]),
+PEOPLE = [  # ages, values per visit (features 3 and 4 are only used by the 4-feature mixture model)
+    ([62.0, 66.5, 71.25], [[0.15, 0.10, 0.20, 0.12], [0.25, 0.20, 0.31, 0.22], [0.40, 0.34, 0.45, 0.30]]),
+    ([70.0, 72.0, 80.0], [[0.40, 0.30, 0.38, 0.29], [0.47, 0.50, 0.44, 0.45], [0.60, 0.72, 0.58, 0.66]]),
+    ([75.0, 78.5, 83.0], [[0.55, 0.65, 0.50, 0.61], [0.62, 0.70, 0.57, 0.68], [0.81, 0.77, 0.74, 0.79]]),
 ]
 EVENTS = [(73.0, 0), (82.5, 1), (84.0, 1)]
 LATENT_SHIFT = {"tau": [1.5, -2.0, 0.7], "xi": [0.2, -0.3, 0.1], "sources": [0.4, -0.6, 0.25]}
@@ -117,11 +117,11 @@ STATS_MODELS = {
               "logistic_d2_s1_bernoulli", "joint_d2_s1_diag", "logistic_d1_s0_scalar"],
     "thorough": ["logistic_d2_s0_diag", "logistic_d2_s1_diag", "logistic_d2_s1_scalar", "linear_d2_s1_diag",
                  "linear_d2_s0_scalar", "shared_d2_s1_diag", "logistic_d2_s1_bernoulli", "joint_d2_s1_diag",
-                 "logistic_d1_s0_scalar", "joint_d1_s0_scalar"],
+                 "logistic_d1_s0_scalar", "joint_d1_s0_scalar", "mixture_d4_s2_diag"],
 }
 STATS_SHAPES = {
     "quick": {2: [(1, 1), (1, 2), (2, 2)], 1: [(1, 2), (2, 3)]},
-    "thorough": {2: SHAPES_2FT, 1: SHAPES_1FT},
+    "thorough": {2: SHAPES_2FT, 1: SHAPES_1FT, 4: [(1, 1)]},
 }
 SLOW_MODELS = {
     "quick": ["logistic_d2_s1_diag", "logistic_d2_s1_scalar", "joint_d2_s1_diag"],
@@ -137,7 +137,7 @@ SCIPY_MODELS = {
     "thorough": ["logistic_d2_s1_diag", "logistic_d2_s1_scalar", "linear_d2_s0_scalar", "shared_d2_s1_diag",
                  "logistic_d2_s1_bernoulli", "joint_d2_s1_diag", "logistic_d1_s0_scalar"],
 }
-SCIPY_SHAPES = {"quick": {2: [(1, 2)], 1: [(1, 2)]}, "thorough": {2: [(1, 1), (1, 2), (2, 1)], 1: [(1, 2), (2, 2)]}}
+SCIPY_SHAPES = {"quick": {2: [(1, 2)], 1: [(1, 2)]}, "thorough": {2: [(1, 1), (1, 2)], 1: [(1, 2), (2, 2)]}}
 
 
 def n_entries(shape, dim):
@@ -276,6 +276,15 @@ def observe(model, spec, ds):
                 out["nll_attach_ind@updated"] = st["nll_attach_ind"]
     except Exception as e:  # judged by the caller
         out["__exc__"] = (stage, type(e).__name__, str(e)[:300])
+    # weighted values without a visit axis (mixture model): values under a zero weight are documented as meaningless
+    for k in [k for k, v in out.items() if isinstance(v, WeightedTensor) and k not in VISIT_AXIS]:
+        v = out.pop(k)
+        if v.weight is None:
+            out[k] = v.value
+        else:
+            w = v.weight.expand(v.value.shape)
+            out[k] = torch.where(w != 0, v.value, torch.zeros_like(v.value))
+            out[k + "#weight"] = w.to(torch.float64)
     return out
 
 
